@@ -297,6 +297,30 @@ type colWrap struct {
 
 func (c colWrap) Type() ColumnType { return c.t }
 
+// Prepare forwards Preparable to wrapped column: wrapping changes the type
+// that is reported, the column still should be prepared before encoding.
+func (c colWrap) Prepare() error {
+	if v, ok := c.Column.(Preparable); ok {
+		return v.Prepare()
+	}
+	return nil
+}
+
+// EncodeState forwards StateEncoder to wrapped column.
+func (c colWrap) EncodeState(b *Buffer) {
+	if v, ok := c.Column.(StateEncoder); ok {
+		v.EncodeState(b)
+	}
+}
+
+// DecodeState forwards StateDecoder to wrapped column.
+func (c colWrap) DecodeState(r *Reader) error {
+	if v, ok := c.Column.(StateDecoder); ok {
+		return v.DecodeState(r)
+	}
+	return nil
+}
+
 // Wrap Column with type parameters.
 //
 // So if c type is T, result type will be T(arg0, arg1, ...).
